@@ -21,13 +21,13 @@ type FaultSpec struct {
 }
 
 type SchedSpec struct {
-	K        int   `json:"k"`         // number of pre-emption points aimed at (0 = none)
-	Exact    bool  `json:"exact"`     // PCT-style exact placement (else geometric gaps)
-	HotBias  bool  `json:"hot_bias"`  // postpone a pre-emption to the next hot site
-	Stall    int   `json:"stall"`     // task id starved after its first pre-emption, -1 none
-	StallFor int   `json:"stall_for"` // number of scheduling decisions
-	LowPrio  int   `json:"low_prio"`  // task id only run when nothing else can, -1 none
-	MeanGap  int64 `json:"mean_gap,omitempty"`
+	K        int     `json:"k"`         // number of pre-emption points aimed at (0 = none)
+	Exact    bool    `json:"exact"`     // PCT-style exact placement (else geometric gaps)
+	HotBias  bool    `json:"hot_bias"`  // postpone a pre-emption to the next hot site
+	Stall    int     `json:"stall"`     // task id starved after its first pre-emption, -1 none
+	StallFor int     `json:"stall_for"` // number of scheduling decisions
+	LowPrio  int     `json:"low_prio"`  // task id only run when nothing else can, -1 none
+	MeanGap  int64   `json:"mean_gap,omitempty"`
 	Points   []int64 `json:"points,omitempty"` // the exact global yield indices drawn (informational; replay uses the schedule)
 }
 
@@ -53,6 +53,8 @@ type Plan struct {
 	Tasks      [][]OpSpec  `json:"tasks"`
 	Sched      SchedSpec   `json:"sched"`
 	Faults     []FaultSpec `json:"faults"`
+	ColdFirst  bool        `json:"cold_first,omitempty"`  // simulate before any sequential baseline (lazy initialisation, memo tables and pools are met cold)
+	Prelude    []uint64    `json:"prelude,omitempty"`     // run indices executed (and discarded) before this plan on replay: the runs that preceded it in its worker process
 	ReplayMode bool        `json:"replay_mode,omitempty"` // true => execute exactly the segments of Schedule (then id order)
 	Schedule   []Seg       `json:"schedule,omitempty"`
 	Violation  *Violation  `json:"violation,omitempty"`
@@ -103,7 +105,7 @@ const simOpYieldCap = 4 * maxBaselineYields
 type Tier struct {
 	Extra     map[string]int // additional focused rounds for small families that the property names explicitly
 	Rounds    int            // focused private rounds over the whole catalogue
-	Reps      int // repetitions of each catalogue entry per task in the focused private runs
+	Reps      int            // repetitions of each catalogue entry per task in the focused private runs
 	Name      string
 	MaxTasks  int
 	Faults    bool
@@ -134,6 +136,45 @@ func FixTiers() {
 		t.NRecycle = n * t.Rounds
 		Tiers[name] = t
 	}
+}
+
+// FocusGroups: run index ranges that are executed by one worker process each.
+// A focused private run gets a process of its own, except that the methods of one
+// type share a process (1 802 method entries on the pinned tree, 270 types); the
+// shared / recycle focused runs go in batches of 8, swarm runs are batched by the
+// driver. Every group starts in a fresh process, i.e. with a cold library.
+func FocusGroups(t Tier) [][2]int {
+	fl := focusList(t)
+	var out [][2]int
+	typeOf := func(i int) string {
+		e := Cat.Entries[fl[i]]
+		if e.Fam != "method" {
+			return ""
+		}
+		if k := strings.LastIndex(e.Name, "."); k > 0 {
+			return e.Name[:k]
+		}
+		return e.Name
+	}
+	for i := 0; i < len(fl); {
+		j := i + 1
+		if ty := typeOf(i); ty != "" {
+			for j < len(fl) && typeOf(j) == ty && j-i < 24 {
+				j++
+			}
+		}
+		out = append(out, [2]int{i, j})
+		i = j
+	}
+	base := len(fl)
+	for i := 0; i < t.NShared+t.NRecycle; i += 8 {
+		j := i + 8
+		if j > t.NShared+t.NRecycle {
+			j = t.NShared + t.NRecycle
+		}
+		out = append(out, [2]int{base + i, base + j})
+	}
+	return out
 }
 
 var focusCache = map[string][]int{}
@@ -259,6 +300,8 @@ func PlanRun(seed, index uint64, tierName string) *Plan {
 			planRecycle(p, r, n)
 		}
 	}
+	// focused runs always simulate first; swarm runs half of the time
+	p.ColdFirst = p.Kind == "focused" || r.Bool()
 	// schedule shape
 	p.Sched.K = ks[r.Intn(len(ks))]
 	if r.Chance(3) {
@@ -367,7 +410,7 @@ type outcome struct {
 func runInst(in *Inst) {
 	y0 := vsimrt.Count()
 	if vsimrt.Active() {
-		vsimrt.ArmLimit(simOpYieldCap)
+		vsimrt.ArmLimit(simCap)
 	} else {
 		vsimrt.ArmLimit(maxBaselineYields + 1)
 	}
@@ -471,27 +514,71 @@ func ExecRun(p *Plan) *Record {
 	}
 	sort.Strings(rec.Fams)
 
-	// baseline 1 (also finds the too-slow candidates, deterministically by yield count)
-	slow := map[[2]int]bool{}
-	b1 := baseline(p, slow, false)
+	x := &execution{p: p, rec: rec, slow: map[[2]int]bool{}, noisy: map[[2]int]bool{}}
+	if p.ColdFirst {
+		// Simulation BEFORE any sequential execution: whatever the library builds
+		// lazily, memoises or pools is first touched inside the tasks, not on the main
+		// goroutine (where it would happen-before everything and hide the race).
+		simCap = maxBaselineYields + 1
+		if !x.simulate(nil, 0) {
+			return rec
+		}
+		x.baselines()
+	} else {
+		simCap = simOpYieldCap
+		x.baselines()
+		totals := make([]int64, len(p.Tasks))
+		var total int64
+		for t := range x.b1 {
+			for o := range x.b1[t] {
+				totals[t] += x.b1[t][o].yields
+			}
+			total += totals[t]
+		}
+		if !x.simulate(totals, total) {
+			return rec
+		}
+	}
+	x.compare()
+	return rec
+}
+
+// simCap: yield budget of one operation under simulation (see runInst).
+var simCap int64 = simOpYieldCap
+
+type execution struct {
+	p     *Plan
+	rec   *Record
+	slow  map[[2]int]bool
+	noisy map[[2]int]bool
+	b1    [][]outcome
+	insts [][]*Inst
+	stats vsimrt.Stats
+}
+
+// baselines: order 1 twice (instability = noise, excluded), reverse order once
+// (private mode; a difference is hidden state: order-dependence).
+func (x *execution) baselines() {
+	p, rec := x.p, x.rec
+	b1 := baseline(p, x.slow, false)
+	nslow := len(x.slow)
 	for t := range b1 {
 		for o := range b1[t] {
-			if b1[t][o].yields > maxBaselineYields {
-				slow[[2]int{t, o}] = true
+			if b1[t][o].yields > maxBaselineYields && !x.slow[[2]int{t, o}] {
+				x.slow[[2]int{t, o}] = true
 				rec.SlowOps = append(rec.SlowOps, p.Tasks[t][o].Fam+"/"+p.Tasks[t][o].Name)
 			}
 		}
 	}
-	if len(slow) > 0 {
-		rec.TooSlow = len(slow)
-		b1 = baseline(p, slow, false)
+	if len(x.slow) > nslow {
+		b1 = baseline(p, x.slow, false)
 	}
-	b2 := baseline(p, slow, false)
-	noisy := map[[2]int]bool{}
+	rec.TooSlow = len(x.slow)
+	b2 := baseline(p, x.slow, false)
 	for t := range b1 {
 		for o := range b1[t] {
 			if b1[t][o].dump != b2[t][o].dump {
-				noisy[[2]int{t, o}] = true
+				x.noisy[[2]int{t, o}] = true
 				rec.NoisyOps = append(rec.NoisyOps, p.Tasks[t][o].String())
 				if rec.NoisyDiff == "" {
 					rec.NoisyDiff = firstDiff(b1[t][o].dump, b2[t][o].dump)
@@ -505,13 +592,13 @@ func ExecRun(p *Plan) *Record {
 			}
 		}
 	}
-	rec.Noisy = len(noisy)
+	rec.Noisy = len(x.noisy)
 	if p.Mode == "private" {
-		b3 := baseline(p, slow, true)
+		b3 := baseline(p, x.slow, true)
 		for t := range b1 {
 			for o := range b1[t] {
 				k := [2]int{t, o}
-				if noisy[k] {
+				if x.noisy[k] {
 					continue
 				}
 				if b1[t][o].dump != b3[t][o].dump {
@@ -525,20 +612,22 @@ func ExecRun(p *Plan) *Record {
 			}
 		}
 	}
+	x.b1 = b1
+}
 
-	// per-task totals from the baseline
-	totals := make([]int64, len(p.Tasks))
-	var total int64
-	for t := range b1 {
-		for o := range b1[t] {
-			totals[t] += b1[t][o].yields
-		}
-		total += totals[t]
-	}
-
+// simulate runs the tasks under the scheduler. totals == nil: cold-first run,
+// pre-emption by geometric gaps and fault positions from fixed ranges.
+func (x *execution) simulate(totals []int64, total int64) bool {
+	p, rec := x.p, x.rec
 	cfg := &vsimrt.Config{Seed: p.RunSeed, StallTask: int32(p.Sched.Stall), StallFor: p.Sched.StallFor, LowPrio: int32(p.Sched.LowPrio),
 		SiteFlags: siteFlags, NumSites: len(SiteTab)}
 	r := NewRng(Mix(p.RunSeed, 0x5c4ed))
+	span := func(t int) int64 {
+		if totals != nil {
+			return totals[t]
+		}
+		return 40 * int64(len(p.Tasks[t])+1) // rough: a few dozen yields per operation
+	}
 	if p.ReplayMode {
 		cfg.ReplayMode = true
 		for _, s := range p.Schedule {
@@ -547,19 +636,30 @@ func ExecRun(p *Plan) *Record {
 	} else {
 		cfg.HotBias = p.Sched.HotBias
 		cfg.HotSlack = 60
-		if p.Sched.K > 0 && total > 0 {
-			if p.Sched.Exact {
-				pts := make([]int64, p.Sched.K)
-				for i := range pts {
-					pts[i] = 1 + int64(r.U64()%uint64(total))
+		switch {
+		case totals == nil:
+			if p.Sched.K > 0 {
+				if p.Sched.MeanGap <= 0 {
+					p.Sched.MeanGap = []int64{2, 4, 8, 16, 40, 120}[r.Intn(6)]
 				}
-				sort.Slice(pts, func(i, j int) bool { return pts[i] < pts[j] })
-				cfg.SwitchAt = pts
-				p.Sched.Points = pts
-			} else {
-				cfg.MeanGap = total/int64(p.Sched.K+1) + 1
-				p.Sched.MeanGap = cfg.MeanGap
+				cfg.MeanGap = p.Sched.MeanGap
 			}
+		case p.Sched.K > 0 && total > 0 && p.Sched.Exact:
+			// exact points; the tail where only the last task is left cannot be pre-empted
+			hi := total
+			if n := int64(len(totals)); n > 0 && total/(2*n) > 0 {
+				hi = total - total/(2*n)
+			}
+			pts := make([]int64, p.Sched.K)
+			for i := range pts {
+				pts[i] = 1 + int64(r.U64()%uint64(hi))
+			}
+			sort.Slice(pts, func(i, j int) bool { return pts[i] < pts[j] })
+			cfg.SwitchAt = pts
+			p.Sched.Points = pts
+		case p.Sched.K > 0 && total > 0:
+			cfg.MeanGap = total/int64(p.Sched.K+1) + 1
+			p.Sched.MeanGap = cfg.MeanGap
 		}
 		// faults are drawn here once, stored in the plan, and replayed verbatim
 		if p.Faults == nil {
@@ -568,15 +668,15 @@ func ExecRun(p *Plan) *Record {
 				if r.Chance(15) {
 					for k := 0; k < 1+r.Intn(2); k++ {
 						t := r.Intn(len(p.Tasks))
-						if totals[t] > 0 {
-							p.Faults = append(p.Faults, FaultSpec{Kind: "abort", Task: t, At: 1 + int64(r.U64()%uint64(totals[t])), Slack: 64})
+						if span(t) > 0 {
+							p.Faults = append(p.Faults, FaultSpec{Kind: "abort", Task: t, At: 1 + int64(r.U64()%uint64(span(t))), Slack: 64})
 						}
 					}
 				}
 				if r.Chance(5) {
 					t := r.Intn(len(p.Tasks))
-					if totals[t] > 0 {
-						p.Faults = append(p.Faults, FaultSpec{Kind: "gc", Task: t, At: 1 + int64(r.U64()%uint64(totals[t]))})
+					if span(t) > 0 {
+						p.Faults = append(p.Faults, FaultSpec{Kind: "gc", Task: t, At: 1 + int64(r.U64()%uint64(span(t)))})
 					}
 				}
 			}
@@ -595,9 +695,8 @@ func ExecRun(p *Plan) *Record {
 		}
 	}
 
-	// simulated execution
 	env := NewEnv(p.Mode, p.RunSeed, len(p.Tasks), p.Pick)
-	insts := buildAll(p, env, slow)
+	insts := buildAll(p, env, x.slow)
 	bodies := make([]func(), len(insts))
 	for t := range insts {
 		mine := insts[t]
@@ -611,8 +710,9 @@ func ExecRun(p *Plan) *Record {
 	if err != nil {
 		rec.Hang = true
 		rec.Sample = "scheduler error: " + err.Error()
-		return rec
+		return false
 	}
+	x.insts, x.stats = insts, stats
 	rec.Yields, rec.Switches, rec.HotSwitches, rec.StallSkips = stats.Yields, stats.Switches, stats.HotSwitches, stats.StallSkips
 	rec.SchedDigest = stats.SchedDigest
 	rec.Truncated, rec.Drift, rec.Hang = stats.Truncated, stats.ReplayDrift, stats.Hang
@@ -632,18 +732,25 @@ func ExecRun(p *Plan) *Record {
 	if p.Mode == "recycle" {
 		rec.Faults["buffer_recycle"] += len(env.Pairs)
 	}
+	if p.ColdFirst {
+		rec.Faults["cold_first"]++
+	}
+	return true
+}
 
-	// sequential-equivalence and panic oracles
+// compare: sequential-equivalence and panic oracles.
+func (x *execution) compare() {
+	p, rec := x.p, x.rec
 	rd := uint64(1469598103934665603)
-	for t := range insts {
-		for o, in := range insts[t] {
+	for t := range x.insts {
+		for o, in := range x.insts[t] {
 			oc := in.outcome()
 			rd = (rd ^ Hash64(oc.dump)) * 1099511628211
 			k := [2]int{t, o}
-			if noisy[k] || oc.aborted {
+			if x.noisy[k] || oc.aborted || x.slow[k] {
 				continue
 			}
-			exp := b1[t][o]
+			exp := x.b1[t][o]
 			spec := p.Tasks[t][o]
 			if !in.ran {
 				rec.Violations = append(rec.Violations, Violation{Class: "diverge", Key: "diverge:" + spec.Fam + "/" + spec.Name,
@@ -671,15 +778,14 @@ func ExecRun(p *Plan) *Record {
 	// executed schedule, for replay files
 	ex := *p
 	ex.ReplayMode = true
-	ex.Schedule = make([]Seg, 0, len(stats.Segments))
-	for _, s := range stats.Segments {
+	ex.Schedule = make([]Seg, 0, len(x.stats.Segments))
+	for _, s := range x.stats.Segments {
 		ex.Schedule = append(ex.Schedule, Seg{T: s.Task, N: s.N})
 	}
 	rec.Plan = &ex
 	if len(p.Tasks) > 0 && len(p.Tasks[0]) > 0 {
 		rec.Sample = p.Tasks[0][0].String()
 	}
-	return rec
 }
 
 var siteFlags []uint8
